@@ -49,24 +49,35 @@ class SliceFlow:
             self._rd[fname] = reaching_defs(self.pm.cfg(fname))
         return self._rd[fname]
 
-    def summary(self, fname: str) -> Optional[FrozenSet[int]]:
-        if fname in self.summ:
-            return self.summ[fname]
-        if fname in self._busy or fname == "_consume_balanced_tokens":
+    def summary(self, fname: str, penv: Optional[Dict[str, FrozenSet[int]]] = None) -> Optional[FrozenSet[int]]:
+        """slice counts of what fname returns; penv = counts of the groups handed in through its parameters"""
+        key = fname if not penv else None
+        if key and key in self.summ:
+            return self.summ[key]
+        if fname in self._busy or fname == "_consume_balanced_tokens" or fname not in self.pm.methods:
             return None
         self._busy.add(fname)
         cfg = self.pm.cfg(fname)
         out: Set[int] = set()
         any_group = False
-        for n in cfg.nodes:
-            if n.kind == "stmt" and isinstance(n.stmt, ast.Return) and n.stmt.value is not None:
-                c = self.counts(fname, n, n.stmt.value)
-                if c is not None:
-                    any_group = True
-                    out |= c
-        self._busy.discard(fname)
-        self.summ[fname] = frozenset(out) if any_group else None
-        return self.summ[fname]
+        saved = self._penv
+        self._penv = dict(penv or {})
+        try:
+            for n in cfg.nodes:
+                if n.kind == "stmt" and isinstance(n.stmt, ast.Return) and n.stmt.value is not None:
+                    c = self.counts(fname, n, n.stmt.value)
+                    if c is not None:
+                        any_group = True
+                        out |= c
+        finally:
+            self._penv = saved
+            self._busy.discard(fname)
+        res = frozenset(out) if any_group else None
+        if key:
+            self.summ[key] = res
+        return res
+
+    _penv: Dict[str, FrozenSet[int]] = {}
 
     def counts(self, fname: str, n: Node, e: ast.AST, depth: int = 0, seen: Optional[Set[Tuple[int, str]]] = None) -> Optional[FrozenSet[int]]:
         if depth > 8:
@@ -76,8 +87,16 @@ class SliceFlow:
             r = self.pm.resolve(fname, e)
             if r == ("self", "_consume_balanced_tokens"):
                 return frozenset({0})
-            if r and r[0] == "self":
-                return self.summary(r[1])
+            if r and r[0] == "self" and r[1] in self.pm.methods:
+                # groups handed to the callee through its parameters keep their count and are sliced further inside
+                callee = self.pm.methods[r[1]]
+                pnames = [a.arg for a in callee.args.args if a.arg not in ("self", "cls")]
+                penv: Dict[str, FrozenSet[int]] = {}
+                for p_, a_ in zip(pnames, e.args):
+                    c_ = self.counts(fname, n, a_, depth + 1, seen)
+                    if c_ is not None:
+                        penv[p_] = c_
+                return self.summary(r[1], penv or None)
             return None
         if isinstance(e, ast.IfExp):
             # either arm; an arm that is not a group (`[]`, None) contributes nothing
@@ -94,6 +113,10 @@ class SliceFlow:
         if isinstance(e, ast.Name):
             out: Set[int] = set()
             anyg = False
+            entry_id = self.pm.cfg(fname).entry.id
+            if e.id in self._penv and entry_id in self.rd(fname).get(n.id, {}).get(e.id, ()):
+                anyg = True
+                out |= self._penv[e.id]
             for did in self.rd(fname).get(n.id, {}).get(e.id, ()):
                 if (did, e.id) in seen:
                     continue
